@@ -635,6 +635,40 @@ fn long_garbage_stream(rng: &mut Rng, g: usize) -> Stream {
     st
 }
 
+/// a message cut off after `present` bytes (its length field announces more) directly followed by a valid message of (nearly)
+/// maximal size and small ones: whether the cut-off message is recognised as corrupt must not depend on how much of the
+/// following message is buffered
+fn truncated_then_big_stream(rng: &mut Rng, shrink: usize) -> Stream {
+    let fl = F_WEID | F_WTMS | F_UEH;
+    let mut st = Stream { serial: false, segs: vec![] };
+    let pl = rng.bytes(10);
+    st.segs.push(Seg::M(rand_msg(rng, false, fl, pl)));
+    let announced = rng.range(300, 900) as usize;
+    let full = rand_msg(rng, false, fl, vec![0x41; announced]).bytes();
+    let present = rng.range(40, 120) as usize;
+    st.segs.push(Seg::G(full[..present].to_vec()));     // not sanitized on purpose: it starts with a frame marker
+    let big_pl = rng.bytes(max_payload(fl) - shrink);
+    let mut big = rand_msg(rng, false, fl, big_pl);
+    // keep the big payload free of markers so that the only embedded marker of the cut-off message is the big message's own
+    for w in 0..big.payload.len().saturating_sub(3) {
+        if big.payload[w..w + 3] == STO[..3] || big.payload[w..w + 3] == SER[..3] {
+            big.payload[w] = 0x2e;
+        }
+    }
+    st.segs.push(Seg::M(big));
+    for _ in 0..3 {
+        let pl = small_payload(rng);
+        let mut m = rand_msg(rng, false, fl, pl);
+        for w in 0..m.payload.len().saturating_sub(3) {
+            if m.payload[w..w + 3] == STO[..3] || m.payload[w..w + 3] == SER[..3] {
+                m.payload[w] = 0x2e;
+            }
+        }
+        st.segs.push(Seg::M(m));
+    }
+    st
+}
+
 fn chunk_mode(a: &Args, t: &mut Trace) -> Value {
     let seed = a.num("--seed", 1);
     let mut rng = Rng::new(seed ^ 0x5eed_c04);
@@ -661,6 +695,8 @@ fn chunk_mode(a: &Args, t: &mut Trace) -> Value {
             4 => long_garbage_stream(&mut rng, lm - 2),
             5 => long_garbage_stream(&mut rng, lm - 3),
             6 => { let g = lm + 4096 + rng.below(3) as usize; long_garbage_stream(&mut rng, g) }
+            7 => truncated_then_big_stream(&mut rng, 0),
+            8 => truncated_then_big_stream(&mut rng, 3),
             _ => gen_stream(&mut rng, match si % 4 { 0 => 0, 1 => 1, 2 => 2, _ => 3 }),
         };
         let lay = st.layout();
